@@ -46,13 +46,13 @@ end slice
 
 namespace narrow
 
-/-- Trace-time wrap of a negative Python-int start (fix ca35059): `start + self.shape[dim]` with Python
-indexing of the static shape; tensor-valued arguments are not touched. -/
-def wrapStart (s : Shape) (tensorArgs : Bool) (dim start : Int) : Option Int :=
-  if tensorArgs ∨ ¬ start < 0 then some start
+/-- A negative start is wrapped once: Python ints at trace time (fix ca35059, `self.shape[dim]` with Python indexing),
+tensor-valued starts in the graph (fix 55f321d, `Where(start < 0, start + Gather(Shape(x), dim), start)`). -/
+def wrapStart (s : Shape) (_tensorArgs : Bool) (dim start : Int) : Option Int :=
+  if ¬ start < 0 then some start
   else
     match normAxis s.length dim with
-    | none => none          -- Python IndexError
+    | none => none          -- Python IndexError / Gather index out of range
     | some a => some (start + (s.getD a 0 : Nat))
 
 /-- `aten_narrow`: `Slice(x, [start'], [start'+length], [dim])`. -/
@@ -63,7 +63,10 @@ def model (s : Shape) (tensorArgs : Bool) (dim start length : Int) : Option Shap
 
 def term (s : Shape) (tensorArgs : Bool) (dim start length : Int) : String :=
   let w (x : String) := tOp "Reshape" [x, "[-1]"] [("allowzero", "0")]
-  if tensorArgs then tOp "Slice" ["x0", w "x2", tOp "Add" [w "x2", w "x3"], w "x1"]
+  if tensorArgs then
+    let st := tOp "Where" [tOp "Less" [w "x2", "[0]"],
+      tOp "Add" [w "x2", tOp "Gather" [tOp "Shape" ["x0"] [("start", "0")], w "x1"] [("axis", "0")]], w "x2"]
+    tOp "Slice" ["x0", st, tOp "Add" [st, w "x3"], w "x1"]
   else
     let st := (wrapStart s false dim start).getD start
     tOp "Slice" ["x0", w (tI st), tOp "Add" [w (tI st), w (tI length)], w (tI dim)]
@@ -273,8 +276,8 @@ end flip
 namespace roll
 
 /-- One `(shift, dim)` step on an axis of size `d` at list level:
-`len = shift < 0 ? -shift : d - shift`; `Concat(Slice(x, len, numel), Slice(x, 0, len))`;
-`bigEnd` is the `Size(x)` used as the (over-long) slice end. -/
+`len = shift < 0 ? -shift : d - shift`; `Concat(Slice(x, len, bigEnd), Slice(x, 0, len))`;
+`bigEnd` is the (over-long) slice end: `INT64_MAX` since fix cb8a6fb (it was `Size(x)`, 0 for empty tensors). -/
 def stepIdx (d : Nat) (bigEnd : Nat) (shift : Int) : List Nat :=
   let len : Int := if shift < 0 then -shift else (d : Int) - shift
   sliceIdx d len bigEnd 1 ++ sliceIdx d 0 len 1
@@ -304,13 +307,13 @@ def model (s : Shape) (shifts dims : List Int) : Option Shape :=
       | none => none
       | some a =>
         let d := acc.getD a 0
-        some (setAt acc a (stepIdx d (numel acc) (redShift (s.getD a 0) p.1)).length)) s
+        some (setAt acc a (stepIdx d INT64_MAX.toNat (redShift (s.getD a 0) p.1)).length)) s
 
 def stepTerm (rank : Nat) (x : String) (shift dim : Int) : String :=
   let dim := if dim < 0 then dim + (rank : Int) else dim
   let len := if shift < 0 then tInts [-shift]
     else tOp "Sub" [tOp "Shape" [x] [("end", tI (dim + 1)), ("start", tI dim)], tInts [shift]]
-  let big := tOp "Reshape" [tOp "Size" [x], "[-1]"] [("allowzero", "0")]
+  let big := tInts [INT64_MAX]
   tOp "Concat" [tOp "Slice" [x, len, big, tInts [dim]], tOp "Slice" [x, "[0]", len, tInts [dim]]]
     [("axis", tI dim)]
 
